@@ -50,7 +50,10 @@ def run(rep):
         for plt in E.find_templates(v, lambda t: 'push_constant_ranges : & [' in E.tmpl_text(t)):
             rng_ = hole_after_seq(plt, 'push_constant_ranges : & [')
             if rng_ is not None and E.find_templates(rng_, lambda t: 'wgpu :: PushConstantRange {' in E.tmpl_text(t)):
-                cands.append((closure_size(q), q, plt))
+                # a function that is handed the stage map / the entry stages (a staged top level: computed in one helper, consumed in another)
+                # does not see where they come from: the join is its caller
+                if q in crate.fns and not crate.receives(q, 'ShaderStages'):
+                    cands.append((closure_size(q), q, plt))
                 break
     cands.sort(key=lambda c: c[:2])
     tops = [(cands[0][1], cands[0][2])] if cands else []
